@@ -510,7 +510,11 @@ func (r *Resolvable) ResolveDeferBatch(rootData *Object, out io.Writer, outstand
 
 	// Direct children whose anchor survived the render are announced now (lazily)
 	// and scheduled by the caller; the rest are cancelled.
-	liveChildren = r.liveChildDescriptors(r.currentDefer.ID)
+	// A defer that failed delivers nothing, so the objects its children are mounted
+	// on may never have reached the client: the children are cancelled with it.
+	if !shouldSkipIncremental {
+		liveChildren = r.liveChildDescriptors(r.currentDefer.ID)
+	}
 
 	// Counter: announce live children, complete self. The frame that drives the
 	// outstanding count to zero writes the terminal hasNext:false. Every defer's
